@@ -27,7 +27,7 @@ CHECKS = {
                 note="Trusted: compilers, harness. 32/64-bit value spaces are covered by a structured subset only (stated in evidence)."),
     "C03": dict(category="exploration", design_ref="DESIGN.md 5 / C03",
                 technique="bounded-exhaustive enumeration of images whose wire blockLength is extended independently at every level (3^L vectors), decoded by generated readers on the real accessors against an independent codec",
-                text="Every image of the bounded space is re-encoded by the reference codec with the root block and every group's entry block extended by 0, 1 or 7 bytes independently per level, then decoded by random access, plain cursor traversal and get_by_tag; every compiled field, entry, nested group and data member must be found where the wire image puts it and size_bytes of message/group/entry must equal the wire size.",
+                text="Every image of the bounded space is re-encoded by the reference codec with the root block and every group's entry block extended by 0, 1 or 7 bytes independently per level (and, one level at a time, grown to a wire blockLength of 300), then decoded by random access, plain cursor traversal and get_by_tag; every compiled field, entry, nested group and data member must be found where the wire image puts it and size_bytes of message/group/entry must equal the wire size.",
                 note="Trusted: compilers, reference codec. Visiting under extension is C19's recorder on the same images."),
     "C04": dict(category="model_checking", design_ref="DESIGN.md 5 / C04, Appendix A",
                 technique="explicit-state exploration of the cursor protocol on the real accessors: states = every byte offset of the image (+null) for every view reachable by random access, transitions = every (member, wrapper, get/set) label from every state; plus complete traversals under every cyclic wrapper-choice string and every group iteration style; reference = documented protocol table",
@@ -39,10 +39,10 @@ CHECKS = {
                 note="Trusted: compilers, reference model, unsigned __int128 product as oracle. Sizes that do not fit size_t are excluded as the property states."),
     "C06": dict(category="fault_enumeration", design_ref="DESIGN.md 5 / C06, 9",
                 technique="fault enumeration over well-formed images on the real size_bytes_checked: every truncation point and every corruption of every blockLength/numInGroup/length instance, in a release build on an exact-size buffer ending at a PROT_NONE page with a CPU budget; reference = structural walk with unbounded integers",
-                text="For every image of the bounded space: every n in 0..len (+ trailing junk) and every header-field instance overwritten with 0, 1, fit-1, fit+1, max/2+1, max-1, max; size_bytes_checked(message | top-level group, n) must return (no fault = no read at offset >= n, no budget overrun = work bounded by n) and its (valid, size) must equal the reference walk's. Four genuine defect classes are recorded as known findings; every other disagreement is a violation.",
+                text="For every image of the bounded space: every n in 0..len (+ trailing junk; catalogue shapes and header layouts incl. 64-bit message-header members) and every header-field instance overwritten with 0, 1, fit-1, fit+1, max/2+1, max-1, max; size_bytes_checked(message | top-level group, n) must return (no fault = no read at offset >= n, no budget overrun = work bounded by n) and its (valid, size) must equal the reference walk's. Four genuine defect classes are recorded as known findings; every other disagreement is a violation.",
                 note="Trusted: kernel guard pages, ITIMER_VIRTUAL budget (100 ms for microseconds of legitimate work), the reference walk."),
     "C07": dict(category="exploration", design_ref="DESIGN.md 5 / C07",
-                technique="bounded-exhaustive enumeration of schema families (name-clash assignments over a fixed identifier pool, concatenated-name group forests, string attribute values, numeric literal forms, kinds, catalogue, header layouts); for every schema sbeppc accepts: each emitted header compiled alone, a by-name TU, the complete accessor driver and the traits TU compiled (and name traits compared) on the compiler x standard cells, with warnings enabled so that required diagnostics stay errors",
+                technique="bounded-exhaustive enumeration of schema families (name-clash assignments over a fixed identifier pool, concatenated-name group forests, string attribute values, numeric literal forms and integer boundary values, command-line options --schema-name / --inject-include, kinds, catalogue, header layouts); for every schema sbeppc accepts: each emitted header compiled alone, a by-name TU, the complete accessor driver and the traits TU compiled (and name traits compared) on the compiler x standard cells, with warnings enabled so that required diagnostics stay errors",
                 text="Every accepted schema of the families must yield headers that compile on their own and a TU that names every type, enumerator, choice, message and tag at its documented path and calls every accessor form (random access, cursor with every wrapper, by-tag, header fillers); every name trait must equal the schema name whatever clashes exist. Schemas sbeppc rejects are only counted.",
                 note="Trusted: g++ 12 / clang++ 14 as the definition of 'compiles'. 'All attribute values' is infinite: a token set is enumerated."),
     "C08": dict(category="exploration", design_ref="DESIGN.md 5 / C08",
@@ -59,7 +59,7 @@ CHECKS = {
                 note="Trusted: guard pages, siglongjmp capture of the documented assertion handler. Accesses *before* p (pointer wrap-around) and CPU time are outside this property's sentence and are counted, not judged."),
     "C11": dict(category="exploration", design_ref="DESIGN.md 5 / C11",
                 technique="bounded-exhaustive enumeration of the complete mutator list of every generated view class x const byte/cursor combinations as detection-idiom probes (positive control on the mutable twin), second-stage real-call compiles for what the idiom cannot decide, conversion pairs, and every non-mutating operation executed on images mapped PROT_READ",
-                text="For kinds and a stride of the catalogue: every setter, set_by_tag, cursor setter, header filler, resize/clear and every dynamic/static array mutator overload incl. element assignment is probed for (V<const B>), (V<const B>,cursor<B>), (V<B>,cursor<const B>), (V<const B>,cursor<const B>): none may compile, the mutable twin must. Views/cursors convert implicitly only towards more-const. All getters, size queries, iterators, cursor traversals, by-tag reads and visits run on read-only mappings, where any write faults.",
+                text="For kinds (byte types char, unsigned char, volatile char and their const forms) and a stride of the catalogue: every setter, set_by_tag, cursor setter, header filler, resize/clear and every dynamic/static array mutator overload incl. element assignment is probed for (V<const B>), (V<const B>,cursor<B>), (V<B>,cursor<const B>), (V<const B>,cursor<const B>): none may compile, the mutable twin must. Views/cursors convert implicitly only towards more-const. All getters, size queries, iterators, cursor traversals, by-tag reads and visits run on read-only mappings, where any write faults.",
                 note="Trusted: compilers (SFINAE / hard errors), mprotect."),
     "C12": dict(category="model_checking", design_ref="DESIGN.md 5 / C12",
                 technique="explicit-state exploration of the real group iterators: state = iterator index, all iterator-op sequences up to depth 3 from begin() and end(), integer index model; all 16 dimension type pairs",
